@@ -114,6 +114,32 @@ AFTER_END = [
 ]
 
 
+def full_address_space(spec_failures, dist, quick):
+    """Programs that fill the instruction space exactly (or miss by one) and execute a CALL in their last cell: if the
+    tool accepts them, the return address it saves must still be a 16-bit word (seed C02e: a 65536-instruction
+    program was let through and CALL saved 65536)."""
+    from hera.data import Settings
+    from hera.loader import load_program
+    from hera.vm import VirtualMachine
+    for total in ([65536] if quick else [65535, 65536, 65537]):
+        text = "SET(R5, %d)\nBR(R5)\n" % (total - 1) + "NOP()\n" * (total - 4) + "CALL(R12, R1)\n"
+        st = Settings()
+        st.throttle = 12
+        prog, exc, _, _ = run_real(lambda: load_program(text, st))
+        dist["address_space_programs"] = dist.get("address_space_programs", 0) + 1
+        if exc == "SystemExit" or prog is None:
+            continue                    # rejected with a diagnostic: fine
+        if exc:
+            spec_failures.append({"what": "loading a program of %d instructions raised %s" % (total, exc)})
+            continue
+        vm = VirtualMachine(st)
+        _, exc, _, _ = run_real(lambda: vm.run(prog))
+        bad = ("raised %s" % exc) if exc else wf_snapshot(snapshot_vm(vm))
+        if bad:
+            spec_failures.append({"what": "a program of %d instructions is accepted; running it (CALL in the last cell): %s" % (total, bad),
+                                  "program": "SET(R5, %d) BR(R5) NOP() x %d CALL(R12, R1)" % (total - 1, total - 4)})
+
+
 def after_the_end(spec_failures, dist):
     """Commands that keep going once control has left the program: no exception, nothing fetched outside the
     program, machine still well-formed (seed C02d: `continue` lost its finished() guard)."""
@@ -167,7 +193,7 @@ def known_replays(ctx, findings):
 
 
 def init_strings(rng, n):
-    regs = ["r0", "R0", "r1", "R15", "sp", "FP", "pc_ret", "rt", "fp_alt", "r16", "r-1", "x", "r01"]
+    regs = ["r0", "R0", "r1", "R15", "sp", "FP", "pc_ret", "rt", "fp_alt", "r16", "r-1", "x", "r01", "", "r", "R", "r" + "7" * 4400]
     vals = ["0", "5", "-1", "-32768", "-32769", "65535", "65536", "70000", "0x10", "0xFFFF", "0x10000",
             "0b11", "0o17", "abc", "", "1e3", "--1", "99999999999999999999"]
     out = []
@@ -267,6 +293,7 @@ def correspondence(ctx, model_available=True):
     import dbgprops as dp
     dsessions = debugger_histories(rng, 30 if quick else 400, spec_failures, dist)
     after_the_end(spec_failures, dist)
+    full_address_space(spec_failures, dist, quick)
     if model_available:
         dres = dp.correspondence("C02d", dsessions, True, check_history=False)
         disagreements += dres["disagreements"]
